@@ -4,10 +4,12 @@
          d:<c>        DeliverC2S      D:<c>  DeliverS2C    S      DeliverSettings
          t:<c>:<nonok> STrailers      r:<c>  SCancel       q:<c>:<ok|err|base>  SExit
          s:<n>        SSettings       K      snapshot marker (no op)
+         P  CPause (client pause_writing)   U  CResume (resume_writing)   F  CFlush (a write of the client's
+         h2 send buffer that carries frames held back while paused)
    answer: one token per input token:
      op  -> - (done) | O (opened) | B (blocked) | R (refused: the real call raises) | _ (not enabled)
             | E (nothing in flight)
-     K   -> [creg,sreg,out,in|waiting|woken|opened|leak|maxc|quiescent|<c-h2><s-h2>,...]
+     K   -> [creg,sreg,out,in|waiting|woken|opened|leak|maxc|quiescent|<c-h2><s-h2>,...|held|paused]
             h2 letters: i idle, o open, l half-closed local, r half-closed remote, c closed *)
 let split_colon w = String.split_on_char ':' w
 
@@ -26,6 +28,9 @@ let parse_op w =
                           (match k with "ok" -> KOk | "err" -> KErr | "base" -> KBase
                                       | _ -> failwith "exit kind"))
   | ["s"; n] -> SSettings (z_of_int (int_of_string n))
+  | ["P"] -> CPause
+  | ["U"] -> CResume
+  | ["F"] -> CFlush
   | _ -> failwith ("op " ^ w)
 
 let show_out = function
@@ -38,11 +43,12 @@ let ints l = String.concat "," (List.map (fun n -> string_of_int (int_of_nat n))
 
 let show_snap s =
   let sn = snap s in
-  Printf.sprintf "[%d,%d,%d,%d|%s|%s|%s|%s|%d|%s|%s]"
+  Printf.sprintf "[%d,%d,%d,%d|%s|%s|%s|%s|%d|%s|%s|%s|%s]"
     (int_of_nat sn.n_creg) (int_of_nat sn.n_sreg) (int_of_nat sn.n_out) (int_of_nat sn.n_in)
     (ints sn.l_waiting) (ints sn.l_woken) (ints sn.l_opened) (ints sn.l_leak)
     (int_of_z sn.v_maxc) (word_of_bool (quiescent s))
     (String.concat "," (List.map (fun k -> h2_letter k.k_ch ^ h2_letter k.k_sh) s.calls))
+    (ints sn.l_held) (word_of_bool sn.v_paused)
 
 let handle = function
   | n :: m :: toks ->
